@@ -50,6 +50,11 @@ CHECKS = {
         "ref": "DESIGN.md §3 C16",
         "note": "os.replace is atomic by definition of the model (POSIX rename); no fsync before replace, so power loss is outside the model; runs as root, so 0o444 targets stay writable (real PermissionErrors come from the setuid scenarios).",
     },
+    "C19": {
+        "text": "Lean theorems: the outcome structure of apply_rules and of main's file loop — a rejected file yields the located 'Error while processing' message, exit contribution 1 and the loop goes on (reject_reports_and_goes_on, loop_continues_after_reject, exit_nonzero_of_reject); a traceback can only come from an exception other than ClassifyError / ConfigurationError / the local-rules OSError (traceback_only_from_uncaught); the tokenizer model is total, lossless and never yields an empty token for all Unicode strings; a fix run is a fold over a finite schedule. Search on the real code: every exception and every slow step of instrumented full-rule-set fix runs (every rule on every corpus file, re-layout variants, random configurations incl. all rules enabled); randomly corrupted corpus files through the real apply_rules under a wall-clock alarm (accepted, or rejected with the documented outcome tuple; anything else is a finding); CLI runs with a rejected file among good ones. Partial by nature: totality of the ~960 rule bodies and 246 productions is decided on explored inputs only.",
+        "technique": "Lean 4 proof (outcome model, tokenizer totality) + exhaustive rule×file crash/hang search on the real code",
+        "ref": "DESIGN.md §3 C19",
+    },
 }
 
 NOT_YET = "check under construction in this session (model/proofs not merged yet); see DESIGN.md §3"
